@@ -1,1 +1,1 @@
-from . import strings, regex, dt, dec  # noqa
+from . import strings, regex, dt, dec, io  # noqa
